@@ -519,7 +519,8 @@ class Effects:
 
     # ------------------------------------------------------- exact-read helper
     def is_exact_read(self, fi: FuncInfo) -> bool:
-        """f(self, n) returns bytes of length exactly n, or raises."""
+        """f(self, n) returns bytes of length exactly n, or raises: every returning path has established
+        `len(<returned value>) == n` (decided on value terms, whatever the form of the test)."""
         q = fi.qualname
         if q in self.exact_helpers:
             return self.exact_helpers[q]
@@ -527,26 +528,29 @@ class Effects:
         params = [p for p in fi.params() if p != "self"]
         if len(params) != 1:
             return False
-        n = params[0]
-        body = fi.node.body if isinstance(fi.node.body, list) else []
-        rets = [s for s in ast.walk(fi.node) if isinstance(s, ast.Return)]
-        if len(rets) != 1 or not isinstance(rets[0].value, ast.Name) or rets[0] is not body[-1]:
+        from .terms import cmp_term, evaluator, tv
+        try:
+            ev = evaluator(self.repo, self.repo.flat(fi))
+            paths = list(ev.run(limit=4000))
+        except AnalysisError:
             return False
-        x = rets[0].value.id
-        ok = False
-        for s in body[:-1]:
-            if isinstance(s, ast.If) and s.body and isinstance(s.body[-1], ast.Raise) and not s.orelse:
-                t = s.test
-                left = t.left if isinstance(t, ast.Compare) else None
-                if isinstance(left, ast.Name):
-                    al = self.repo.local_alias(left.id, fi)
-                    left = al if al is not None else left
-                if isinstance(t, ast.Compare) and len(t.ops) == 1 and left is not None and unparse(left) == f"len({x})" \
-                        and unparse(t.comparators[0]) == n and isinstance(t.ops[0], ast.NotEq):
-                    ok = True
-            # the checked variable must not be re-assigned after the check
-            if ok and isinstance(s, ast.Assign) and any(isinstance(t, ast.Name) and t.id == x for t in s.targets):
+        n = ("sym", params[0])
+        nret = 0
+        ok = True
+        for (pth, st) in paths:
+            if pth[-1][0] != ev.cfg.exit.id:
+                continue
+            nret += 1
+            R = st.ret
+            if R is None or R[0] == "const":
                 ok = False
+                break
+            L = ("pcall", "len", (R,), ())
+            known = dict(st.cond)
+            if tv(cmp_term("eq", L, n), known) is not True and tv(cmp_term("ne", L, n), known) is not False:
+                ok = False
+                break
+        ok = ok and nret >= 1
         self.exact_helpers[q] = ok
         return ok
 
@@ -596,12 +600,65 @@ class Effects:
             if store:
                 return []
             return [self.esc("KeyError", True, fi, e, "subscript")]
+        if store:
+            shape = self._store_shape_on_terms(fi, e)
+            if shape == "list":
+                site["discharged"] = "list with int index proven in range (path conditions on value terms)"
+                self.primitive_sites.append(site)
+                return []
+            if shape == "dict":
+                site["discharged"] = "dict store: only TypeError (unhashable key) remains (path conditions on value terms)"
+                self.primitive_sites.append(site)
+                return [self.esc("TypeError", True, fi, e, "subscript")]
         site["discharged"] = None
         self.primitive_sites.append(site)
         res = [self.esc("TypeError", True, fi, e, "subscript"), self.esc("IndexError", True, fi, e, "subscript")]
         if not store:
             res.append(self.esc("KeyError", True, fi, e, "subscript"))
         return res
+
+    def _store_shape_on_terms(self, fi: FuncInfo, e: ast.Subscript) -> str | None:
+        """`base[key] = v`: what every path reaching the store has established about base and key, decided on value
+        terms (so the form of the tests -- nested, split, inverted, through a local holding type(base) -- is irrelevant):
+        "list" = type(base) is list, type(key) is int and 0 <= key < len(base);  "dict" = type(base) is dict."""
+        from .terms import cmp_term, const, evaluator, implies
+        cache = self.__dict__.setdefault("_term_paths", {})
+        if fi.qualname not in cache:
+            try:
+                ev = evaluator(self.repo, fi)
+                cache[fi.qualname] = list(ev.run(limit=6000))
+            except AnalysisError:
+                cache[fi.qualname] = None
+        paths = cache[fi.qualname]
+        if not paths:
+            return None
+        stmt = next((n for n in self.repo.own_nodes(fi) if isinstance(n, ast.Assign) and any(t is e for t in n.targets)), None)
+        if stmt is None:
+            return None
+        verdicts = set()
+        seen = 0
+        for (_pth, st) in paths:
+            for ev_ in st.events:
+                if ev_.kind == "store" and ev_.node is stmt and ev_.recv is not None and ev_.key is not None:
+                    seen += 1
+                    R, K = ev_.recv, ev_.key
+                    cond = st.cond[:ev_.ncond]
+
+                    def ty(x, name):
+                        return cmp_term("is", ("pcall", "type", (x,), ()), ("sym", name))
+                    ln = ("pcall", "len", (R,), ())
+                    try:
+                        if implies(cond, ("and", ty(R, "list"), ty(K, "int"), cmp_term("le", const(0), K), cmp_term("lt", K, ln))) is True:
+                            verdicts.add("list")
+                        elif implies(cond, ty(R, "dict")) is True:
+                            verdicts.add("dict")
+                        else:
+                            verdicts.add("?")
+                    except Exception:  # a term shape the prover does not handle: no discharge
+                        verdicts.add("?")
+        if seen and len(verdicts) == 1 and "?" not in verdicts:
+            return verdicts.pop()
+        return None
 
     def _annotated_mapping(self, v: ast.AST, fi: FuncInfo) -> bool:
         if isinstance(v, ast.Name):
@@ -717,6 +774,10 @@ class Effects:
         if last == "encode" and isinstance(fn, ast.Attribute):
             codec = self.repo.fold_in(c.args[0], fi) if c.args else "utf-8"
             recv = fn.value
+            if isinstance(recv, ast.Name):
+                al_ = self.repo.local_alias(recv.id, fi)   # text bound to a local first
+                if isinstance(al_, ast.Call):
+                    recv = al_
             total = False
             if codec == "ascii" and isinstance(recv, ast.Call) and callee_last(recv) in ("rstrip", "str", "hex", "oct", "bin", "repr"):
                 total = self._is_str_of_int(recv) or callee_last(recv) in ("hex", "oct", "bin")
